@@ -60,7 +60,7 @@ class Prelude(Raw):
 
 class _Extract:
     def __init__(self, file, subs=(), spec=None, loops=None, before=(), after=(), label=None,
-                 note=None):
+                 note=None, replace_loops=None, index_loops=None):
         self.file = file
         self.subs = list(subs)
         self.spec = spec
@@ -71,6 +71,11 @@ class _Extract:
         self.note = note
         self.applied = []
         self.item = None
+        self.replace_loops = dict(replace_loops or {})
+        # R8: desugar `for X in &mut V {BODY}` (loop ordinal k) into the index loop
+        # `let mut I: usize = 0; while I < V.len() <clauses> { let X = &mut V[I]; BODY I += 1; }`
+        # value: (index_name, clauses_text).  Refused if BODY contains `continue`.
+        self.index_loops = dict(index_loops or {})
 
     def locate(self, src):
         raise NotImplementedError
@@ -92,18 +97,61 @@ class _Extract:
                     raise LostAnchor('%s: loop #%d not found (%d loops)' % (item.name, k, len(lp)))
                 inserts.append((lp[k][1] - item.start, '/*@LOOP%d@*/' % k))
             self.n_loops = len(lp)
-        for off, mk in sorted(inserts, reverse=True):
-            text = text[:off] + mk + text[off:]
+        # R8-style replacement of a whole loop statement (by loop ordinal) with declared text
+        cuts = []
+        if self.replace_loops:
+            from rsx import match_brace
+            lp = item.loops()
+            for k, repl in self.replace_loops.items():
+                if k >= len(lp):
+                    raise LostAnchor('%s: loop #%d to replace not found (%d loops)' % (item.name, k, len(lp)))
+                kw, ob = lp[k]
+                cb = match_brace(item.src.masked, ob)
+                cuts.append((kw - item.start, cb + 1 - item.start, repl))
+                self.applied.append(('R8-replace-loop #%d (%d lines) -> `%s`' % (
+                    k, item.src.text.count('\n', kw, cb) + 1, repl.strip()), 1))
+        if self.index_loops:
+            from rsx import match_brace
+            lp = item.loops()
+            for k, tup in self.index_loops.items():
+                iname, clauses = tup[0], tup[1]
+                tail_hint = tup[2] if len(tup) > 2 else ''
+                if k >= len(lp):
+                    raise LostAnchor('%s: loop #%d to desugar not found (%d loops)' % (item.name, k, len(lp)))
+                kw, ob = lp[k]
+                cb = match_brace(item.src.masked, ob)
+                head = item.src.masked[kw:ob]
+                mh = re.match(r'for\s+([A-Za-z_][A-Za-z0-9_]*)\s+in\s+&mut\s+([A-Za-z_][A-Za-z0-9_.]*)\s*$', head)
+                if not mh:
+                    raise LostAnchor('%s: loop #%d is not of the form `for X in &mut V`: `%s`' % (item.name, k, head.strip()))
+                if re.search(r'\bcontinue\b', item.src.masked[ob:cb]):
+                    raise LostAnchor('%s: loop #%d contains `continue`; R8 desugaring refused' % (item.name, k))
+                x, v = mh.group(1), mh.group(2)
+                cuts.append((kw - item.start, ob + 1 - item.start,
+                             'let mut %s: usize = 0;\n        while %s < %s.len()\n%s\n        {\n            let %s = &mut %s[%s];'
+                             % (iname, iname, v, clauses.strip('\n'), x, v, iname)))
+                cuts.append((cb - item.start, cb - item.start, '%s    %s += 1;\n        ' % (tail_hint, iname)))
+                self.applied.append(('R8-desugar `for %s in &mut %s` into an index loop over %s' % (x, v, iname), 1))
+        edits = [(off, off, mk) for off, mk in inserts] + cuts
+        for a, b, mk in sorted(edits, key=lambda e: e[0], reverse=True):
+            # inserts that fall inside a replaced loop are dropped with the loop
+            if a == b and any(ca < a < cb for (ca, cb, _) in cuts if cb > ca):
+                continue
+            text = text[:a] + mk + text[b:]
         # anchored proof hints
         fills = {}
-        for idx, (anchor, hint) in enumerate(self.before):
-            if text.count(anchor) != 1:
+        for idx, tup in enumerate(self.before):
+            anchor, hint = tup[0], tup[1]
+            want = tup[2] if len(tup) > 2 else 1
+            if text.count(anchor) != want:
                 raise LostAnchor('%s: anchor `%s` occurs %d times' % (item.name, anchor, text.count(anchor)))
             mk = '/*@B%d@*/' % idx
             text = text.replace(anchor, mk + anchor)
             fills[mk] = hint
-        for idx, (anchor, hint) in enumerate(self.after):
-            if text.count(anchor) != 1:
+        for idx, tup in enumerate(self.after):
+            anchor, hint = tup[0], tup[1]
+            want = tup[2] if len(tup) > 2 else 1
+            if text.count(anchor) != want:
                 raise LostAnchor('%s: anchor `%s` occurs %d times' % (item.name, anchor, text.count(anchor)))
             mk = '/*@A%d@*/' % idx
             text = text.replace(anchor, anchor + mk)
